@@ -16,6 +16,12 @@ deregister):
   gc n     all ; all ; n × remove(row) ; all ; all            -- collect_trash (time-validity pass; rows are "expired" iff odd)
   attend n copy ; n × (get_data_consumer_its_aid ; search ; still-stored section ; last_checked section ; callback) ; removes
            -- (attend_subscription with fix C14-removed-subscription-not-notified: the membership test is its own section)
+           -- the callback is USER CODE: it may block on the application (`lkApp`), which may itself be calling the LDM
+The consumer callback is not LDM code.  What matters for the LDM is what it may WAIT for: another application thread
+that is itself inside an IF.LDM.3 / IF.LDM.4 call (hand-over to a worker, an application mutex taken around LDM calls).
+That is modelled by the application mutex `lkApp`: every callback takes it (`tsect lkApp`), and an application thread
+is a list of segments (`Seg`) of LDM operations each issued while holding it or not (`sysApp`).  The callback runs with
+NO LDM lock held (`callbacks_outside_locks`, `notification_chain_unlocked`, regenerated from the source).
 Records are codes `2·payload + expiredBit` (`Nat`): the payload is what queries return, the bit stands for the record's
 timestamp / time validity; an update replaces the payload and keeps the bit (fix C12-update-keeps-record).  Registry keys, ids, subscription ids
 are `Nat`.  Tie to the source: `blocks_*`/`guarded_ldm` below (`decide` against `Generated.Locks`).
@@ -27,6 +33,7 @@ import Generated.LdmShape
 namespace FlexModel.Conc.Ldm
 open FlexModel.Conc
 
+def lkApp : Lock := 0    -- an APPLICATION mutex (user code, not an LDM lock): what a consumer callback may block on
 def lkMt : Lock := 1     -- LDMMaintenanceThread.data_containers_lock
 def lkSvc : Lock := 2    -- LDMService._lock (RLock)
 def lkDb : Lock := 3     -- DictionaryDataBase._lock (RLock)
@@ -213,14 +220,15 @@ def tsect (l : Lock) (i : TI) : List TI := [.acq l, i, .rel l]
 def gcIter (o : Nat) : List TI := [.loc (gcPick o)] ++ tsect lkDb (.gblk o 4 1 (gcRemove o))
 /-- one subscription of the attendance pass (with fixes C14-no-callback-after-deregister, C14-attendance-isolation,
 C14-removed-subscription-not-notified): registration check first; `attend_subscription` = search; still-stored
-section; `last_checked` section; callback – or mark for removal -/
+section; `last_checked` section; callback – or mark for removal.  The callback is user code that may wait for the
+application: it takes the application mutex `lkApp`, holding no LDM lock (`callbacks_outside_locks`) -/
 def attendIter (o : Nat) : List TI :=
   [.loc (subPick o)] ++ tsect lkSvc (.gblk o 4 1 (fun s => consHas o (s.reg o 5 / 100) s)) ++
   [.loc (whenReg o 4 1 (whenReg o 1 0 (markRemove o)))] ++
   tsect lkDb (.gblk o 4 1 (whenReg o 1 1 (dbAll o))) ++
   tsect lkSvc (.gblk o 4 1 (whenReg o 1 1 (whenReg o 6 1 (subStored o)))) ++
   tsect lkSvc (.gblk o 4 1 (whenReg o 1 1 (whenReg o 6 1 (whenReg o 7 1 (fun s => lastChkSection (s.reg o 5) s))))) ++
-  [.gblk o 4 1 (whenReg o 1 1 (whenReg o 6 1 (whenReg o 7 1 (callback o))))]
+  tsect lkApp (.gblk o 4 1 (whenReg o 1 1 (whenReg o 6 1 (whenReg o 7 1 (callback o)))))
 def attendRemove (o : Nat) : List TI :=
   [.loc (removePick o)] ++ tsect lkSvc (.gblk o 4 1 (fun s => subRemove o (s.reg o 5) s))
 
@@ -256,6 +264,33 @@ def compileT : Op → List TI
 def compile (op : Op) : List (Instr LSt) := (compileT op).map TI.erase
 def threadProg (ops : List Op) : List (Instr LSt) := (ops.map compile).flatten
 def sys (threads : List (List Op)) : Sys LSt := mkSys {} (threads.map threadProg)
+
+/-! ## application threads
+A segment of an application thread: LDM operations issued one after the other, `true` = while the thread holds the
+application mutex `lkApp` (`with app_mutex: ldm.if_ldm_4.request_data_objects(…)`), the mutex consumer callbacks take.
+Any bracketing of one non-re-entrant mutex around straight-line LDM calls is a list of segments. -/
+abbrev Seg := Bool × List Op
+def segProg (g : Seg) : List (Instr LSt) :=
+  if g.1 then [.acq lkApp] ++ (threadProg g.2 ++ [.rel lkApp]) else threadProg g.2
+def appProg (segs : List Seg) : List (Instr LSt) := (segs.map segProg).flatten
+def sysApp (threads : List (List Seg)) : Sys LSt := mkSys {} (threads.map appProg)
+def Op.isAttend : Op → Bool
+  | .attend _ _ => true
+  | _ => false
+/-- the application's own obligation: a thread does not run an attendance pass (whose callbacks take the
+non-re-entrant application mutex) while it holds that mutex itself -/
+def AppOk (threads : List (List Seg)) : Prop := ∀ segs ∈ threads, ∀ g ∈ segs, g.1 = true → ∀ op ∈ g.2, op.isAttend = false
+
+theorem appProg_plain (ops : List Op) : appProg [(false, ops)] = threadProg ops := by
+  simp [appProg, segProg]
+/-- threads that never take the application mutex: `sys` is the special case of `sysApp` -/
+theorem sys_eq_sysApp (threads : List (List Op)) : sys threads = sysApp (threads.map (fun ops => [(false, ops)])) := by
+  unfold sys sysApp
+  rw [List.map_map]
+  congr 1
+  apply List.map_congr_left
+  intro ops _
+  exact (appProg_plain ops).symm
 
 /-! ## tie to the source -/
 section Tie
@@ -361,6 +396,29 @@ theorem no_inplace_mutation : Generated.LdmShape.inplace = [] := rfl
 /-- every lock acquisition in the LDM sources is a `with` statement (what harness/gen_locks.py analyses): there is no
 explicit `.acquire()` / `.release()` call -/
 theorem no_explicit_lock_calls : Generated.LdmShape.explicitLockCalls = [] := rfl
+
+/-- **user code runs outside every lock section**: the only invocation of a consumer callback in the LDM sources is the
+one in `LDMService.process_notifications`, and no `with self.<lock>` section encloses it (harness/gen_ldm_shape.py
+`userCalls`) – the `callback` step of `attendIter` follows the released last-checked section and holds only `lkApp` -/
+theorem callbacks_outside_locks :
+    Generated.LdmShape.userCalls = [("LDMService_process_notifications", [])] := by decide
+
+/-- the functions from which `t` is reached through the call graph of `Generated.Locks.calls` (one round) -/
+def callersStep (ts : List Fn) : List Fn :=
+  allFns.filter (fun g => ts.contains g || (calls g).any (fun c => ts.contains c.2))
+/-- `process_notifications` and everything that (transitively) calls it -/
+def notifiers : List Fn := callersStep (callersStep (callersStep (callersStep (callersStep [.LDMService_process_notifications]))))
+
+/-- … and no lock is held ALONG THE CALL CHAIN that reaches the notification: `notifiers` is closed under "calls a
+member" (five rounds reach the fixpoint), it contains the attendance pass, its per-subscription step and both drivers
+(the reactive add, the service thread), and every call from a member to a member is made with no lock held -/
+theorem notification_chain_unlocked :
+    callersStep notifiers = notifiers ∧
+    notifiers.contains .LDMService_attend_subscription = true ∧ notifiers.contains .LDMService_attend_subscriptions = true ∧
+    notifiers.contains .LDMServiceReactive_add_provider_data = true ∧
+    notifiers.contains .LDMServiceThreads_subscriptions_service = true ∧
+    notifiers.all (fun g => (calls g).all (fun c => !notifiers.contains c.2 || c.1.isEmpty)) = true := by
+  decide +kernel
 
 /-- rank of the generated lock names (maintenance-thread lock < service lock < database lock; the router's locks are
 ranked as in `RouterConc`) -/
